@@ -98,6 +98,10 @@ func genHeader(r *Rng) *GzHeader {
 	}
 	if r.Bool() {
 		h.ModTime = int64(r.Intn(1 << 31))
+		if r.Intn(3) == 0 {
+			// the upper half of the unsigned 32-bit range (2038..2106)
+			h.ModTime += 1 << 31
+		}
 	}
 	return h
 }
@@ -437,6 +441,24 @@ func suiteC07(c *ctx) {
 				cc.Subst = []int{r.Intn(n), r.Intn(256)}
 			}
 			cases = append(cases, cc)
+		}
+		if n >= 8 {
+			// a whole trailer field overwritten with zeros (or ones): the stored length, the checksum
+			nn := n
+			if api == "gzip" && i%3 == 0 {
+				nn += 2 // the header checksum added by withHeaderCRC
+			}
+			for k, f := range [][3]int{{nn - 4, 4, 0}, {nn - 8, 4, 0}, {nn - 4, 4, 255}, {nn - 8, 8, 0}} {
+				if api == "zlib" && k != 0 {
+					continue
+				}
+				cc := &CCase{Prop: "C07", ID: fmt.Sprintf("C07-%d-z%d", i, k), Dir: dir, W: w, Cut: -1, Reads: "big", RSeed: r.U64(),
+					HCRC: api == "gzip" && i%3 == 0, Single: api == "gzip" && (i+k)%3 == 1}
+				for j := 0; j < f[1]; j++ {
+					cc.Subst = append(cc.Subst, f[0]+j, f[2])
+				}
+				cases = append(cases, cc)
+			}
 		}
 		hcrc := api == "gzip" && i%3 == 0
 		lo, hi := 0, 0
